@@ -141,3 +141,106 @@ class NumpySerializedListC(ClassContract):
 
 
 CONTRACTS = [NumpySerializedListC()]
+
+
+# ---------------------------------------------------------------- __init__ establishes the representation invariant
+PBYTES = z3.Function('PICKLED', smt.Obj, smt.Obj)          # pickle.dumps(x, protocol=-1) viewed as a uint8 array
+PLEN = z3.Function('PICKLED_LEN', smt.Obj, smt.Int)        # its length (>= 1)
+
+
+def _init_hooks():
+    h = _hooks()
+    b0 = h['builtin_hook']
+
+    def builtin_hook(eng, st, name, args, kwargs, node):
+        if name == 'pickle.dumps' and len(args) == 1 and isinstance(args[0], ObjV):
+            return [(st, ObjV(PBYTES(args[0].t)))]
+        if name == 'numpy.frombuffer' and len(args) == 1 and isinstance(args[0], ObjV):
+            return [(st, args[0])]                       # the same bytes, as a uint8 array
+        if name == 'numpy.asarray' and len(args) == 1 and isinstance(args[0], SymSeqV) and isinstance(args[0].at(z3.Int('_q')), IntV):
+            seq = args[0]
+            oid = eng.new_oid()
+            st.heap[oid] = {'n': seq.length, 'f': (lambda q: seq.at(q).t), 'inv': None}
+            return [(st, NdArrV(oid))]
+        if name == 'numpy.cumsum' and len(args) == 1 and isinstance(args[0], NdArrV):
+            cell = st.heap[args[0].oid]
+            j = z3.Int('_csj')
+            tot = smt.FOLDS.sum(j, cell['f'](j))
+            smt.FOLDS.note_index(cell['n'])
+            oid = eng.new_oid()
+            st.heap[oid] = {'n': cell['n'], 'f': (lambda q, tot=tot: tot(q + 1)), 'inv': None, 'cumsum_of': (cell['f'], tot)}
+            return [(st, NdArrV(oid))]
+        if name == 'numpy.concatenate' and len(args) == 1 and isinstance(args[0], SymSeqV):
+            seq = args[0]
+            res = []
+            for s2, empty in eng.branch(st, seq.length == 0):
+                if empty:
+                    eng.raise_(s2, eng.new_exc(s2, 'ValueError'))       # "need at least one array to concatenate"
+                else:
+                    b = BufV('all')
+                    b.parts = seq
+                    res.append((s2, b))
+            return res
+        return b0(eng, st, name, args, kwargs, node)
+
+    def len_hook(eng, st, x):
+        if isinstance(x, ObjV):
+            t = z3.simplify(x.t)
+            if z3.is_app(t) and t.decl().eq(PBYTES):
+                x_ = z3.Const('_px', smt.Obj)
+                AX.add(z3.ForAll([x_], PLEN(x_) >= 1, patterns=[PLEN(x_)]))      # a pickle is never empty
+                return [(st, IntV(PLEN(t.arg(0))))]
+        return None
+    h['builtin_hook'] = builtin_hook
+    h['len_hook'] = len_hook
+    return h
+
+
+def _wu_init_post(S, o):
+    lst = S.eng.entry_env['lst']
+    n = lst.length
+    if o.kind == 'raise':
+        # numpy cannot concatenate zero arrays: an EMPTY list is refused at construction (ValueError), nothing else is
+        return [('wu-init:only-an-empty-list-is-refused(ValueError)', z3.And(n == 0, exc_is(o.exc, S.eng.hier, 'ValueError')))]
+    me = S.st.heap[S.eng.self_oid]
+    addr, buf = me.get('_addr'), me.get('_lst')
+    if not (isinstance(addr, NdArrV) and isinstance(buf, BufV) and getattr(buf, 'parts', None) is not None):
+        return [('C09:wu-invariant:address-table-and-one-byte-buffer', smt.F)]
+    cell = S.st.heap[addr.oid]
+    A = cell['f']
+    parts = buf.parts
+    p = smt.fresh('p', smt.Int)
+    inr = z3.And(p >= 0, p < n)
+    j = z3.Int('_wq')
+    tot = smt.FOLDS.sum(j, PLEN(lst.at(j).t))
+    smt.FOLDS.note_index(p)
+    smt.FOLDS.note_index(p + 1)
+    el = parts.at(p)
+    return [('C09:wu-invariant:one-address-per-example', cell['n'] == n),
+            ('C09:wu-invariant:the-buffer-concatenates-the-pickled-examples-in-list-order',
+             z3.And(parts.length == n, z3.Implies(inr, el.t == PBYTES(lst.at(p).t) if isinstance(el, ObjV) else smt.F))),
+            ('C09:wu-invariant:address-p-is-the-end-offset-of-example-p(cumulative-length-in-the-same-order)',
+             z3.Implies(inr, z3.And(A(p) == tot(p + 1), off(A, p) == tot(p)))),
+            ('C09:wu-invariant:addresses-are-non-decreasing', z3.Implies(inr, A(p) >= off(A, p))),
+            ('C09:wu-init:the-callers-list-object-is-not-kept', z3.BoolVal(all(v is not lst for v in me.values())))]
+
+
+class NumpySerializedListInitC(ClassContract):
+    cls = 'NumpySerializedList'
+
+    def fields(self, eng, st):
+        return {}
+
+    def view(self, eng, st):
+        return None
+    methods = {'__init__': [Variant('pack', params={'lst': (lambda e, s: _mk_orig_list(e, s))}, post=_wu_init_post,
+                                    hooks=_init_hooks(), props=('C09', 'C02'))]}
+
+
+def _mk_orig_list(eng, st):
+    n = smt.fresh('n', smt.Int)
+    st.pc.append(n >= 0)
+    return SymSeqV(n, lambda e: ObjV(ORIG(e)), 'list')
+
+
+CONTRACTS = CONTRACTS + [NumpySerializedListInitC()]
